@@ -17,7 +17,7 @@ func (t *verifFakeRT) RoundTrip(*http.Request) (*http.Response, error) { return 
 // handler, or abort after the headers with panic(http.ErrAbortHandler).
 func verifStubProxy(p *httputil.ReverseProxy, rw http.ResponseWriter, req *http.Request) {
 	name := p.Transport.(*verifFakeRT).name
-	verifProxyHits[name]++
+	verifHit(name)
 	kind, status := verifNextOutcome()
 	switch kind {
 	case verifOutStatus:
